@@ -1,20 +1,33 @@
 #!/usr/bin/env python3
-"""Import what a mutant sub-agent left in /tmp/mut/<Cxx>.out into /verif/seeded/<Cxx>-m<k>/."""
+"""Import what a sub-agent left in <src>/<Cxx>.out into /verif/seeded/<Cxx>-m<k+offset>/.
+usage: import_seeded.py [--src /tmp/mut] [--offset 0] [--origin-head <sha>] Cxx ..."""
 import json, os, shutil, sys
-for prop in sys.argv[1:]:
-    src = '/tmp/mut/%s.out' % prop
+a = sys.argv[1:]
+src_root, offset, head = '/tmp/mut', 0, '353bf747'
+while a and a[0].startswith('--'):
+    k = a.pop(0)
+    v = a.pop(0)
+    if k == '--src': src_root = v
+    elif k == '--offset': offset = int(v)
+    elif k == '--origin-head': head = v
+for prop in a:
+    src = '%s/%s.out' % (src_root, prop)
     meta = json.load(open(src + '/meta.json'))
     for m in meta['mutants']:
         k = m['file'].replace('.diff', '')
-        dst = '/verif/seeded/%s-%s' % (prop, k)
+        n = int(k[1:]) + offset
+        dst = '/verif/seeded/%s-m%d' % (prop, n)
         os.makedirs(dst, exist_ok=True)
         shutil.copy(src + '/' + m['file'], dst + '/patch.diff')
         for ext in ('demo.md', 'demo.rs'):
             f = '%s/%s.%s' % (src, k, ext)
             if os.path.exists(f):
                 shutil.copy(f, dst + '/' + ext)
+        if os.path.exists('%s/%s.confirm.json' % (src, k)):
+            shutil.copy('%s/%s.confirm.json' % (src, k), dst + '/confirm.json')
         mm = dict(m)
+        mm['file'] = 'patch.diff'
         mm['property'] = prop
-        mm['origin'] = 'sub-agent given only the property text and a scratch worktree of /repo at 353bf747'
+        mm['origin'] = 'sub-agent given only the property text (and one-line summaries of the changes earlier rounds had produced, to avoid duplicates) and a scratch worktree of /repo at %s' % head
         json.dump(mm, open(dst + '/meta.json', 'w'), indent=1)
         print('imported', dst)
